@@ -1152,8 +1152,27 @@ func c09xCheckTexts(c *Ctx, rp *c09xReporter, texts []string, origin string) {
 	}
 	reps = c.Drv.AskBatch(reqs)
 	c09xBadOp(reqs, reps)
+	// the hypotheses of Props.C09.format_preserves_accepted_exp_partial, evaluated by the driver on the
+	// expression the REAL parser returned (floats in their 'g' text = the abstract canonicaliser g):
+	// strsValid (no string with invalid UTF-8: F6b) and noNegZero (no float -0: F26).  The theorem
+	// parse_produces_wf_partial says that under them the expression is wf.
+	hreqs := make([][]string, 0, 2*len(accepted))
+	for _, a := range accepted {
+		hreqs = append(hreqs, []string{"C09.strsvalid", a.enc}, []string{"C09.noneg0", a.enc})
+	}
+	hreps := c.Drv.AskBatch(hreqs)
+	c09xBadOp(hreqs, hreps)
 	for i, a := range accepted {
-		if !strings.Contains(reps[2*i], "wf=true") {
+		sv, nz := hreps[2*i] == "true", hreps[2*i+1] == "true"
+		r.hist(fmt.Sprintf("near:accepted:strsvalid=%v,noneg0=%v", sv, nz))
+		wfm := strings.Contains(reps[2*i], "wf=true")
+		if sv && nz && !wfm && rp.want("C09:accepted-text-not-wf") {
+			rp.report(Violation{Kind: "correspondence", Key: "C09:accepted-text-not-wf",
+				What:   "the real parser returned an expression that satisfies strsValid and noNegZero but not the model's wf (the range lemma of the reader does not hold for the real parser)",
+				Input:  map[string]string{"text": strconv.Quote(a.text), "enc": a.enc}, Model: reps[2*i],
+				Broken: "Props.C09.parse_produces_wf_partial"})
+		}
+		if !wfm {
 			r.hist("near:accepted-not-wf")
 			continue
 		}
